@@ -186,6 +186,12 @@ NOT_APPLICABLE = {
 }
 
 
+Y_TEXT = (" In the modules the property is anchored in (engine Y): no method used as a truth value without being called, no one-shot iterator kept or "
+          "read twice, no cache decorator on a generator / instance method, no written-to mutable default, no class-level container written through "
+          "instances, no hash()/id() key of a lasting container, no memo whose key leaves out an argument the value depends on, no Optional result "
+          "computed with `and`, no labelling in set order.")
+
+
 def main():
     here = os.path.join("/verif", "vstatic", "checks")
     checks = []
@@ -204,7 +210,7 @@ def main():
                 evidence_file=f"/verif/evidence/{pid}.json",
                 replay_cmd_template=f"{PY} -m vstatic replay {{path}}",
                 engine="vstatic",
-                level_claimed=dict(category="other", text=c["text"], design_ref=c["design"]),
+                level_claimed=dict(category="other", text=c["text"] + Y_TEXT, design_ref=c["design"]),
                 level_note=c["note"],
                 technique="static analysis: " + c["technique"],
             )
